@@ -308,6 +308,27 @@ example : runDecl ⟨.array, 1, some 3, .agg .array 2, false, true⟩
     [.set 1 ⟨.agg .array 2, 7⟩, .set 2 ⟨.agg .array 0, 8⟩, .set 2 ⟨.agg .list 2, 9⟩, .set 2 ⟨2, 1⟩, .get 2]
     = some [.ok, .refused, .refused, .refused, .unset] := by decide
 
+/-- Element type check at every nesting depth: `check_type` accepts an element exactly when its type tree equals the
+declared base type — the aggregate kind at *every* level and the simple type at the bottom (bounds and flags of element
+aggregates are not compared, as in the code).  Depends on the regenerated comparison mode (`elementBaseCmp = structural`). -/
+theorem C19_check_type_structural (x : Val) (e : Ty) : checkType x e = true ↔ x.ty = e :=
+  checkType_iff x e
+
+/-- Before fixes/C19-5 (`instance.get_type() == expected_type.get_type()`, identity on aggregate objects): with three
+levels of nesting a structurally equal element was accepted only when built over the declaration's own base-type object. -/
+theorem C19_legacy_identity_comparison_witness :
+    checkTypeWith .identity ⟨.agg .list (.agg .set 2), 1⟩ (.agg .list (.agg .set 2)) = false ∧
+    checkTypeWith .identity ⟨.agg .list (.agg .set 2), 0⟩ (.agg .list (.agg .set 2)) = true := by decide
+
+/-- A comparison that recurses through `get_type()` without comparing the aggregate class (seeded C19-b2) takes a
+`LIST OF ARRAY OF REAL` for a `LIST OF SET OF REAL`. -/
+theorem C19_kindless_comparison_witness :
+    checkTypeWith .structuralNoKind ⟨.agg .list (.agg .array 2), 1⟩ (.agg .list (.agg .set 2)) = true := by decide
+
+example : runDecl ⟨.array, 1, some 2, .agg .list (.agg .set 2), false, true⟩
+    [.set 1 ⟨.agg .list (.agg .set 2), 1⟩, .set 2 ⟨.agg .list (.agg .array 2), 3⟩, .set 2 ⟨.agg .array (.agg .set 2), 5⟩]
+    = some [.ok, .refused, .refused] := by decide
+
 /-! ## the hypotheses are satisfiable, the specification discriminates -/
 
 example : Reachable ⟨.bag, 0, some 2, 0, false, false⟩
